@@ -25,13 +25,93 @@ theorem path_shape (slug key : Str) (ext : Option Str) :
     dataPath slug key ext = splitOnColon slug [] ++ [match ext with | none => key | some e => key ++ '.' :: e] := by
   cases ext <;> simp [dataPath, taskDir, dataName]
 
-/-- run info and log sit beside the result, named after the key -/
+/-- run info and log sit beside the result, named after the stem of the result's file or directory name -/
 theorem side_files (slug key : Str) (ext : Option Str) :
-    (runInfoPath slug key).dropLast = (dataPath slug key ext).dropLast ∧
-    (logPath slug key).dropLast = (dataPath slug key ext).dropLast ∧
-    (runInfoPath slug key).getLast? = some (key ++ ".run_info.yaml".toList) ∧
-    (logPath slug key).getLast? = some (key ++ ".log".toList) := by
+    (runInfoPath slug key ext).dropLast = (dataPath slug key ext).dropLast ∧
+    (logPath slug key ext).dropLast = (dataPath slug key ext).dropLast ∧
+    (runInfoPath slug key ext).getLast? = some (pyStem (dataName key ext) ++ ".run_info.yaml".toList) ∧
+    (logPath slug key ext).getLast? = some (pyStem (dataName key ext) ++ ".log".toList) := by
   simp [runInfoPath, logPath, dataPath]
+
+theorem takeWhile_all {α} (p : α → Bool) : ∀ (l : List α), (∀ x ∈ l, p x = true) → l.takeWhile p = l
+  | [], _ => rfl
+  | a :: l, h => by
+    simp only [List.takeWhile_cons, h a (List.mem_cons_self ..), if_true]
+    rw [takeWhile_all p l (fun x hx => h x (List.mem_cons_of_mem _ hx))]
+
+theorem takeWhile_append_stop {α} (p : α → Bool) (l : List α) (a : α) (r : List α)
+    (hl : ∀ x ∈ l, p x = true) (ha : p a = false) : (l ++ a :: r).takeWhile p = l := by
+  induction l with
+  | nil => simp [ha]
+  | cons x l ih =>
+    simp only [List.cons_append, List.takeWhile_cons, hl x (List.mem_cons_self ..), if_true]
+    rw [ih (fun y hy => hl y (List.mem_cons_of_mem _ hy))]
+
+/-- a name without a dot is its own stem -/
+theorem pyStem_dotfree (name : Str) (h : ∀ c ∈ name, c ≠ '.') : pyStem name = name := by
+  have : name.reverse.takeWhile (· != '.') = name.reverse :=
+    takeWhile_all _ _ (fun x hx => by simpa using h x (List.mem_reverse.mp hx))
+  simp [pyStem, lastDot, this]
+
+/-- `<key>.<ext>` with a non-empty key and a non-empty dot-free extension has the stem `<key>` -/
+theorem pyStem_key_ext (key e : Str) (hk : key ≠ []) (he : e ≠ []) (hd : ∀ c ∈ e, c ≠ '.') :
+    pyStem (key ++ '.' :: e) = key := by
+  have htw : (key ++ '.' :: e).reverse.takeWhile (· != '.') = e.reverse := by
+    rw [List.reverse_append, List.reverse_cons, List.append_assoc]
+    exact takeWhile_append_stop _ e.reverse '.' key.reverse
+      (fun x hx => by simpa using hd x (List.mem_reverse.mp hx)) (by simp)
+  have hkl : 0 < key.length := List.length_pos_iff.mpr hk
+  have hel : 0 < e.length := List.length_pos_iff.mpr he
+  have hlen : (key ++ '.' :: e).length = key.length + 1 + e.length := by simp; omega
+  have hld : lastDot (key ++ '.' :: e) = some key.length := by
+    simp only [lastDot, htw, List.length_reverse, hlen]
+    rw [if_pos (by omega)]
+    congr 1; omega
+  simp only [pyStem, hld, hlen]
+  have : (0 < key.length && key.length < key.length + 1 + e.length - 1) = true := by
+    simp only [Bool.and_eq_true, decide_eq_true_eq]; omega
+  rw [if_pos this]
+  simp
+
+/-- **named after the key.**  For every file result (`<key>.<ext>`; the extensions of the data classes are non-empty and
+dot-free) and for every directory result whose key has no dot — all parameter-mode keys: 32 hex digits — run info and log
+are `<key>.run_info.yaml` and `<key>.log` -/
+theorem side_files_named_after_key (slug key : Str) (ext : Option Str) (hk : key ≠ [])
+    (h : match ext with
+      | some e => e ≠ [] ∧ ∀ c ∈ e, c ≠ '.'
+      | none => ∀ c ∈ key, c ≠ '.') :
+    (runInfoPath slug key ext).getLast? = some (key ++ ".run_info.yaml".toList) ∧
+    (logPath slug key ext).getLast? = some (key ++ ".log".toList) := by
+  have hs : pyStem (dataName key ext) = key := by
+    cases ext with
+    | none => exact pyStem_dotfree key h
+    | some e => exact pyStem_key_ext key e hk h.1 h.2
+  simp [runInfoPath, logPath, hs]
+
+/-- consequently different keys have different run-info and log files, under the same conditions -/
+theorem side_files_injective_partial (slug k1 k2 : Str) (ext : Option Str) (h1 : k1 ≠ []) (h2 : k2 ≠ [])
+    (h : match ext with
+      | some e => e ≠ [] ∧ ∀ c ∈ e, c ≠ '.'
+      | none => (∀ c ∈ k1, c ≠ '.') ∧ ∀ c ∈ k2, c ≠ '.')
+    (he : runInfoPath slug k1 ext = runInfoPath slug k2 ext ∨ logPath slug k1 ext = logPath slug k2 ext) : k1 = k2 := by
+  have a1 := side_files_named_after_key slug k1 ext h1 (by cases ext with | none => exact h.1 | some e => exact h)
+  have a2 := side_files_named_after_key slug k2 ext h2 (by cases ext with | none => exact h.2 | some e => exact h)
+  rcases he with he | he
+  · rw [he, a2.1] at a1
+    have := Option.some.inj a1.1
+    exact (List.append_cancel_right this).symm
+  · rw [he, a2.2] at a1
+    have := Option.some.inj a1.2
+    exact (List.append_cancel_right this).symm
+
+/-- **finding K7** (full statement false): in name mode the key is the config name; for a DIRECTORY result whose key
+contains a dot the side files are named after the key up to its last dot, so `main.v1` and `main.v2` keep their results
+apart but share one run-info file and one log -/
+theorem k7_dir_side_files_collide :
+    dataPath "t".toList "main.v1".toList none ≠ dataPath "t".toList "main.v2".toList none ∧
+    runInfoPath "t".toList "main.v1".toList none = runInfoPath "t".toList "main.v2".toList none ∧
+    logPath "t".toList "main.v1".toList none = logPath "t".toList "main.v2".toList none := by
+  decide
 
 /-- a task without persisted parameters contributes the text `None` (as release 1.4.0 does) -/
 theorem registry_none_when_empty (pr : Char → Bool) (ps : List Param)
@@ -44,5 +124,6 @@ theorem registry_none_when_empty (pr : Char → Bool) (ps : List Param)
   simp [this]
 
 example : dataPath "g:h:up".toList "abc".toList (some "json".toList) = ["g".toList, "h".toList, "up".toList, "abc.json".toList] := by decide
+example : runInfoPath "g:up".toList "base.v2".toList (some "json".toList) = ["g".toList, "up".toList, "base.v2.run_info.yaml".toList] := by decide
 
 end TCV.C12
